@@ -479,3 +479,52 @@ def check_mixed_orientation(case, rec):
 
 SUBS.append(Sub("mixed_orientation", check_mixed_orientation, enum=enum_mixed_orientation,
                 doc="every 2D / 3D element type: measure and polynomial integrals over a mesh merged with its mirror image"))
+
+
+# ------------------------------------------------------------------------------------------
+# (added by the lead, round 9) a mesh far from the origin (projected map coordinates: metres around x = 4.5e5, y = 5.4e6): element and
+# total measures are those of the same mesh at the origin up to the rounding of the coordinates themselves (eps |offset| / h per
+# element, measured 1e-9 .. 4e-8 here) - a formula on raw coordinates that cancels catastrophically is 4 orders above that
+
+
+def enum_far_from_origin(tier):
+    sq = [[0.0, 0.0], [1.2, 0.1], [1.0, 0.9], [0.1, 1.0]]
+    for et in gm.T2D + gm.T3D:
+        d3 = et in gm.T3D
+        for organised in ((True, False) if not d3 else (True,)):
+            r = dict(verts=sq, h=0.5 if not d3 else 1.3, elemType=et, organised=organised, extrude=[0.1, 0.0, 0.8] if d3 else None,
+                     layers=1 if d3 else 0, A=None, b=None, perm=None, orphans=0)
+            yield dict(recipe=r, offset=[4.5e5, 5.4e6, 3.3e5 if d3 else 0.0])
+
+
+def check_far_from_origin(case, rec):
+    r = case["recipe"]
+    dim = gm.dim_of(r["elemType"])
+    near = gm.build(r)
+    far = gm.build(r)
+    far.Translate(*[float(x) for x in case["offset"]])
+    types = gm.mesh_types(near)
+    sig = dict(elemType=r["elemType"], types=types)
+    rec.label("far:" + types)
+    name = {2: "area_e", 3: "volume_e"}[dim]
+    off = float(np.abs(case["offset"]).max())
+    for g0, g1 in zip(gm.main_groups(near), gm.main_groups(far)):
+        m0, m1 = np.asarray(getattr(g0, name), float), np.asarray(getattr(g1, name), float)
+        h = float(m0.min()) ** (1.0 / dim)
+        # rounding of the translated coordinates: |offset| eps relative to the element size, times the number of terms involved
+        tol = 500.0 * np.finfo(float).eps * off / h  # honest errors reach 2 % of this bound (far_rel_error_over_bound), the seeded formula 800 x
+        rec.note_max("far_rel_error_over_bound", float(np.abs(m1 - m0).max() / m0.min()) / tol)
+        rec.close(m1 - m0, float(m0.min()), tol, "far_element_measures",
+                  f"{g0.elemType}: {name} of the mesh translated by {case['offset']} differs from the one at the origin by "
+                  f"{np.abs(m1 - m0).max() / m0.min():.2e} of the smallest element (rounding bound {tol:.1e})", **sig)
+        i0 = np.asarray(g0.Integrate_e(lambda x, y, z: 1.0 + 0 * x, MatrixType.mass), float)
+        i1 = np.asarray(g1.Integrate_e(lambda x, y, z: 1.0 + 0 * x, MatrixType.mass), float)
+        rec.close(i1 - i0, float(m0.min()), tol, "far_integrate_one", f"{g0.elemType}: Integrate_e(1) far from the origin", **sig)
+    M0 = near.area if dim == 2 else near.volume
+    M1 = far.area if dim == 2 else far.volume
+    rec.close(M1 - M0, M0, 500.0 * np.finfo(float).eps * off / (M0 ** (1.0 / dim)) * 10, "far_measure", f"{types}: measure {M1!r} vs {M0!r}", **sig)
+    rec.nontrivial(True)
+
+
+SUBS.append(Sub("far_from_origin", check_far_from_origin, enum=enum_far_from_origin,
+                doc="every 2D / 3D element type (organised and unstructured in 2D) translated to map coordinates (4.5e5, 5.4e6)"))
